@@ -4,7 +4,9 @@
 (* the other.  The coefficient / right-hand-side menus contain pairs that     *)
 (* normalise to the same comparison (2x <= 4 and x <= 2), pairs that are      *)
 (* equal only on an integer domain (x <= 2 and x < 3), and pairs that are     *)
-(* close but different (x == 3 and 2x == 5).  One initial state per pair.     *)
+(* close but different (x == 3 and 2x == 5); and every ordered pair of a small *)
+(* family of functional constraints over the same two variables.  One initial *)
+(* state per pair.                                                            *)
 EXTENDS GenBounds
 PairDoms == {"i03", "pm2", "i13", "b01", "c02", "im13", "freei", "ge0i"}
 TypePairs == {<<"CondLinEQ", "CondLinEQ">>, <<"CondLinLE", "CondLinLT">>, <<"CondLinLE", "CondLinLE">>,
@@ -13,7 +15,20 @@ TypePairs == {<<"CondLinEQ", "CondLinEQ">>, <<"CondLinLE", "CondLinLT">>, <<"Con
 CoefPairs == {<<1, 1>>, <<1, 2>>, <<2, 1>>, <<2, 2>>, <<1, -1>>, <<-2, 2>>}
 Rhs2 == {2, 3, 4, 5, 6, 10}            \* right-hand sides in halves: 1, 3/2, 2, 5/2, 3, 5
 One(t, a, cf, r) == [Base(t, <<a>>) EXCEPT !.lin = <<cf>>, !.c2 = r]
-PairCases == {[c1 |-> One(tp[1], a, cp[1], r1), c2 |-> One(tp[2], a, cp[2], r2)] :
+OnePairs == {[c1 |-> One(tp[1], a, cp[1], r1), c2 |-> One(tp[2], a, cp[2], r2)] :
                 tp \in TypePairs, a \in PairDoms, cp \in CoefPairs, r1 \in Rhs2, r2 \in Rhs2}
+\* two variables: every ordered pair of a small family of functional constraints over the same <<a, b>>
+\* (the general constraint map: same type with other coefficients / constant / right-hand side, other type
+\* over the same arguments)
+TwoDoms == {"i03", "c02", "b01", "pm2"}
+Fam(a, b) ==
+  {[Base("LinFunc", <<a, b>>) EXCEPT !.lin = l, !.c0 = c0] : l \in {<<1, 1>>, <<1, -1>>, <<2, 2>>, <<1, 2>>}, c0 \in {0, 1}}
+  \cup {Base(t, <<a, b>>) : t \in {"Max", "Min"}}
+  \cup {[Base("CondLinLE", <<a, b>>) EXCEPT !.lin = <<1, 1>>, !.c2 = r] : r \in {2, 4}}
+  \cup {[Base("CondLinEQ", <<a, b>>) EXCEPT !.lin = <<1, -1>>, !.c2 = r] : r \in {0, 2}}
+  \cup {[Base("QuadFunc", <<a, b>>) EXCEPT !.lin = <<0, 0>>, !.quad = q] : q \in { << <<1, 1, 2>> >>, << <<1, 1, 1>>, <<1, 2, 2>> >> }}
+  \cup (IF a = "b01" /\ b = "b01" THEN {Base(t, <<a, b>>) : t \in {"And", "Or"}} ELSE {})
+TwoPairs == UNION {{[c1 |-> A, c2 |-> B] : A \in Fam(a, b), B \in Fam(a, b)} : a \in TwoDoms, b \in TwoDoms}
+PairCases == OnePairs \cup TwoPairs
 PInit == c \in PairCases
 =============================================================================
